@@ -67,7 +67,12 @@ def task(t):
                     {"obligation": "%s: %s" % (pair, desc), "theory": "T_red", "verdict": res, "precondition": "natural magnitudes 0 or in [1e-15, 1e17]"})
             if res == "sat":
                 # prefer a witness that is clearly beyond fpdec's limit (~1.7e20) so that it replays
-                if ex is not None:
+                if ex is not None and desc.startswith("decimal division: divisor"):
+                    # a divisor that is itself a rounded result: ask for one whose unrounded value clearly rounds to zero
+                    res2, model2 = sv.check(hyp + [z3.Not(f), T.zabs(ex) <= T.Q(F(1, 4 * 10 ** 18))], want_model=True)
+                    if res2 == "sat":
+                        model = model2
+                elif ex is not None:
                     res2, model2 = sv.check(hyp + [T.zabs(ex) >= T.Q(WITNESS_LIMIT)], want_model=True)
                     if res2 == "sat":
                         model = model2
